@@ -66,10 +66,14 @@ def failureReportedOK (before : DB) (h : Handle) (w : String) (count : Nat) (alg
   | .exc .runtimeError => true
   | _ => false
 
+def stillPolling : Obs → Bool
+  | .pollExhausted => true
+  | _ => false
+
 /-- **the polling loop ends**: the requests of one `suggest` call are SuggestTrials followed by at
     most `bound` GetOperation calls, and the call does not end still polling -/
 def pollOK (bound : Nat) (o : Out) : Bool :=
-  decide (o.reqs.length ≤ bound + 1) && (match o.obs with | .pollExhausted => false | _ => true)
+  decide (o.reqs.length ≤ bound + 1) && !stillPolling o.obs
 
 /-- lifecycle of every study between two observations (the predicates of C01 / C02) -/
 def lifecycleOK (before after : DB) : Bool :=
